@@ -13,6 +13,7 @@ mod c02;
 mod c03;
 mod c04;
 mod c05;
+mod c06;
 mod c07;
 mod c08;
 mod tree;
@@ -106,6 +107,6 @@ fn main() {
             }
         };
     }
-    dispatch!("C01" => c01, "C02" => c02, "C03" => c03, "C04" => c04, "C05" => c05, "C07" => c07, "C08" => c08, "C09" => c09, "C10" => c10, "C11" => c11, "C12" => c12, "C13" => c13,
+    dispatch!("C01" => c01, "C02" => c02, "C03" => c03, "C04" => c04, "C05" => c05, "C06" => c06, "C07" => c07, "C08" => c08, "C09" => c09, "C10" => c10, "C11" => c11, "C12" => c12, "C13" => c13,
         "C14" => c14, "C15" => c15, "C16" => c16, "C17" => c17, "C18" => c18, "C19" => c19, "C20" => c20);
 }
